@@ -640,6 +640,12 @@ func (s *BgpServer) prePolicyFilterpath(peer *peer, path, old *table.Path) (*tab
 		}
 		if table.CanImportToVrf(vrf, path) {
 			path = path.ToLocal()
+		} else if !path.IsWithdraw && old != nil && table.CanImportToVrf(vrf, old) {
+			// The new version of the route is not imported into the VRF any
+			// more (its route targets changed) but the one it replaces was:
+			// withdraw that one from the attached peer.
+			path = old.ToLocal().Clone(true)
+			old = nil
 		} else {
 			return nil, nil, true
 		}
